@@ -48,7 +48,12 @@ Ghost state: `created p` (lazy objects created for p), `inits p` (initialiser ru
 pending lazy), `hookLog` (store-hook calls in order).
 
 Assumptions (modelled, not verified): user call-outs (initialiser, store hooks, foreign exit
-hooks) terminate and do not call back into the same Local; Go's mutexes are fair enough that an
+hooks) terminate. They MAY call back into the same Local or exit the process: the model runs them
+with no lock of the Local held (`C05.hooks_run_unlocked`; source tie `C05.local_calls_out_unlocked`), so
+what a hook does is a sequence of ordinary steps of the machine (of a helper thread, while the calling
+thread sits at `cb` / `ashCb` / `lzFn`) and is covered by the all-schedules theorems – except that an
+initialiser runs under its own lazy object's mutex, so an initialiser that calls `LoadOrStore` for the
+same process waits for itself (as `sync.Once` would); Go's mutexes are fair enough that an
 enabled thread is eventually scheduled (only deadlock-freedom is proved, not fairness).
 -/
 namespace Uniflow.Local
@@ -296,6 +301,14 @@ def enabled (pinned : Bool) (s : State) (t : Tid) : Bool := (step pinned s t).is
 
 /-! ### Macro steps (yield-point granularity), used by the driver -/
 
+/-- Store hooks with an id from here on are *re-entrant* hooks of the harness: called by
+`AddStoreHook` (value already present) they park (yield site 8) and, while parked INSIDE the hook,
+perform further operations on the same Local or `Exit` the process on the same goroutine. In the
+model the hook runs with every lock of the Local released (`C05.hooks_run_unlocked`), so what the
+goroutine does inside the hook is what any other thread could do while this one is parked at
+`ashCb`: the driver runs the inner operation on a helper thread (`runInner`). -/
+def reentrantHook : Hid := 100
+
 /-- The yield point a thread is parked at, if any. -/
 def yieldSite : Pc → Option Nat
   | .gap site _ _ _ => some site
@@ -304,6 +317,7 @@ def yieldSite : Pc → Option Nat
   | .want (.los3 _ _) => some 4
   | .lzFn _ _ => some 6
   | .exitRun _ (.park :: _) => some 7
+  | .ashCb h _ => if reentrantHook ≤ h then some 8 else none   -- inside a re-entrant store hook of AddStoreHook
   | _ => none
 
 inductive Macro where
@@ -329,6 +343,16 @@ def release (pinned : Bool) (fuel : Nat) (s : State) (t : Tid) : State × Macro 
   match step pinned s t with
   | none => (s, .blocked)
   | some (s', e) => advance pinned fuel s' t e
+
+/-- An operation performed inside a call-out (no yield points honoured): helper thread `t'` runs
+the call to completion. `none` when it cannot finish (blocked). -/
+def runInner (pinned : Bool) : Nat → State → Tid → Ev → Option (State × Ev)
+  | 0, _, _, _ => none
+  | fuel + 1, s, t, last =>
+    if s.thr t = .idle then some (s, last)
+    else match step pinned s t with
+      | none => none
+      | some (s', e) => runInner pinned fuel s' t (if e = .tau then last else e)
 
 /-! ### Observations over the first `n` processes -/
 
